@@ -178,6 +178,33 @@ int main(int argc, char** argv) {
     ppl_delete_Coefficient(out);
   }
 
+  // ---- linear expressions built from constraints / generators / congruences / grid generators
+  {
+    cif::CCon c(4, 3, 0); cif::CGen g(2, 3, 0); cif::CCg cg(5, 3, 2); cif::CGG gg0(2, 3, 0), gg1(3, 3, 1);
+    ppl_Linear_Expression_t le = 0; std::string want;
+    std::function<bool()> same = [&]() -> bool {
+      bool ok = le != 0 && cif::cdump<ppl_const_Linear_Expression_t>(ppl_Linear_Expression_ascii_dump, le) == want;
+      if (le) { ppl_delete_Linear_Expression(le); le = 0; }
+      return ok; };
+    cif::run_plain("ppl_new_Linear_Expression_from_Constraint", "dim3",
+                   [&] { return ppl_new_Linear_Expression_from_Constraint(&le, c.h); },
+                   [&] { want = cif::xdump(Linear_Expression(cif::cxx((ppl_const_Constraint_t) c.h).expression())); return 0; }, same);
+    cif::run_plain("ppl_new_Linear_Expression_from_Generator", "point",
+                   [&] { return ppl_new_Linear_Expression_from_Generator(&le, g.h); },
+                   [&] { want = cif::xdump(Linear_Expression(cif::cxx((ppl_const_Generator_t) g.h).expression())); return 0; }, same);
+    cif::run_plain("ppl_new_Linear_Expression_from_Congruence", "mod2",
+                   [&] { return ppl_new_Linear_Expression_from_Congruence(&le, cg.h); },
+                   [&] { want = cif::xdump(Linear_Expression(cif::cxx((ppl_const_Congruence_t) cg.h).expression())); return 0; }, same);
+#ifdef CIF_HAVE_ppl_new_Linear_Expression_from_Grid_Generator
+    cif::run_plain("ppl_new_Linear_Expression_from_Grid_Generator", "point",
+                   [&] { return ppl_new_Linear_Expression_from_Grid_Generator(&le, gg0.h); },
+                   [&] { want = cif::xdump(Linear_Expression(cif::cxx((ppl_const_Grid_Generator_t) gg0.h).expression())); return 0; }, same);
+    cif::run_plain("ppl_new_Linear_Expression_from_Grid_Generator", "parameter",
+                   [&] { return ppl_new_Linear_Expression_from_Grid_Generator(&le, gg1.h); },
+                   [&] { want = cif::xdump(Linear_Expression(cif::cxx((ppl_const_Grid_Generator_t) gg1.h).expression())); return 0; }, same);
+#endif
+  }
+
   std::printf("S|created=%ld|deleted=%ld|cases=%ld|live=%ld\n", cif::created, cif::deleted, cif::cases, cif::live);
   ppl_finalize();
   return 0;
